@@ -4,7 +4,7 @@
    correspondence on every run; documented semantics: Model/Spec.v (README instruction tables). *)
 From Coq Require Import ZArith NArith List Bool.
 From BE Require Import Model.TableTypes Gen.Tables Model.Regs Model.Decode Model.IL Model.Lift Model.Static Model.Spec
-  Model.Emu Proofs.AluProofs Proofs.ExecProofs Proofs.AccessProofs Proofs.ExecProofs2 Proofs.ExecProofs3 Proofs.ExecMemProofs Proofs.ExecPtrProofs Proofs.ExecStackProofs Proofs.ExecAluMemProofs Proofs.ExecLoopProofs Proofs.ExecRmwProofs Proofs.ExecRmwProofs2 Proofs.ExecMvMemProofs Proofs.ExecExProofs.
+  Model.Emu Proofs.AluProofs Proofs.ExecProofs Proofs.AccessProofs Proofs.ExecProofs2 Proofs.ExecProofs3 Proofs.ExecMemProofs Proofs.ExecPtrProofs Proofs.ExecStackProofs Proofs.ExecAluDefs Proofs.ExecAluMemProofs Proofs.ExecLoopProofs Proofs.ExecRmwDefs Proofs.ExecRmwProofs Proofs.ExecRmwProofs2 Proofs.ExecMvMemProofs Proofs.ExecExProofs.
 Import ListNotations.
 Open Scope Z_scope.
 
